@@ -266,17 +266,16 @@ def registration(rep, prog):
             """('start'|'stop', axis) of a local voxel bound: which box slot (min/max) it quantises"""
             if e.get("k") != "DeclRefExpr":
                 return None
-            for v in walk(fn["body"]):
-                if v.get("k") == "Var" and v.get("did") == e["ref"]["did"] and isinstance(v.get("init"), dict):
-                    syms = [x for x in walk(v["init"]) if x.get("k") == "DeclRefExpr" and x["ref"].get("dk") == "Var"]
-                    for s_ in syms:
-                        for w in walk(fn["body"]):
-                            if w.get("k") == "Var" and w.get("did") == s_["ref"]["did"] and isinstance(w.get("init"), dict):
-                                for y in walk(w["init"]):
-                                    if y.get("k") == "CXXOperatorCallExpr" and y.get("op") == "[]":
-                                        idx = strip(y["c"][2])
-                                        k = int(strip(idx["c"][1])["v"]) if idx.get("k") == "BinaryOperator" else 0
-                                        return ("start" if k < 3 else "stop", "xyz"[k % 3])
+            from ..model import def_chain
+            for x in def_chain(fn, e):
+                for y in walk(x):
+                    if y.get("k") == "CXXOperatorCallExpr" and y.get("op") == "[]" and render(y["c"][1]).endswith("face_aabb_lst_"):
+                        idx = strip(y["c"][2])
+                        try:
+                            k = int(strip(idx["c"][1])["v"]) if idx.get("k") == "BinaryOperator" and idx.get("op") == "+" else 0
+                        except (KeyError, ValueError, TypeError):
+                            return None
+                        return ("start" if k < 3 else "stop", "xyz"[k % 3])
             return None
         o_lo, o_hi = origin(lo), origin(hi)
         inc = strip(l.get("inc") or {})
